@@ -1001,7 +1001,7 @@ where
 	C: NodeClient + 'a,
 	K: Keychain + 'a,
 {
-	update_outputs(wallet_inst.clone(), keychain_mask, true)?;
+	update_outputs_all_accounts(wallet_inst.clone(), keychain_mask)?;
 	let tip = {
 		wallet_lock!(wallet_inst, w);
 		w.w2n_client().get_chain_tip()?
@@ -1025,7 +1025,7 @@ where
 	// transactions mined while the scan was running were (rightly) left alone by its
 	// repairs: record their outputs as confirmed now, so that the scan ends in the state
 	// a scan started after them would have produced
-	update_outputs(wallet_inst.clone(), keychain_mask, true)?;
+	update_outputs_all_accounts(wallet_inst.clone(), keychain_mask)?;
 
 	wallet_lock!(wallet_inst, w);
 	let mut batch = w.batch(keychain_mask)?;
@@ -1316,6 +1316,33 @@ where
 			Ok(false)
 		}
 	}
+}
+
+/// As `update_outputs` with `update_all`, but for every account of the wallet rather than
+/// only the active one: a scan repairs the whole wallet
+fn update_outputs_all_accounts<'a, L, C, K>(
+	wallet_inst: Arc<Mutex<Box<dyn WalletInst<'a, L, C, K>>>>,
+	keychain_mask: Option<&SecretKey>,
+) -> Result<bool, Error>
+where
+	L: WalletLCProvider<'a, C, K>,
+	C: NodeClient + 'a,
+	K: Keychain + 'a,
+{
+	wallet_lock!(wallet_inst, w);
+	let accounts: Vec<Identifier> = w.acct_path_iter().map(|m| m.path).collect();
+	for parent_key_id in accounts {
+		match updater::refresh_outputs(&mut **w, keychain_mask, &parent_key_id, true) {
+			Ok(_) => {}
+			Err(e) => {
+				if let Error::InvalidKeychainMask = e {
+					return Err(e);
+				}
+				return Ok(false);
+			}
+		}
+	}
+	Ok(true)
 }
 
 /// Update transactions that need to be validated via kernel lookup
